@@ -379,11 +379,69 @@ def streamStringValue (rev : Rev) (st : SrcStyle) (s : List Char) : List Char :=
     else s
   | .block => streamSmartQuoted rev s
 
-/-- `chomping_indicator`: the text of the indicator. -/
+/-- `chomping_indicator`: the text of the indicator.  Clip (no indicator) when the value ends in
+exactly one line break after non-empty content, strip (`-`) when it ends in none, keep (`+`)
+otherwise — in particular for a value that is a single line break (clip keeps the final break only of
+non-empty content). -/
 def chompingIndicator (s : List Char) : List Char :=
   match s.reverse with
+  | ['\n'] => ['+']
   | '\n' :: '\n' :: _ => ['+']
   | '\n' :: _ => []
   | _ => ['-']
+
+/-- `str::split('\n')` -/
+def splitLines : List Char → List (List Char)
+  | [] => [[]]
+  | c :: rest =>
+    if c = '\n' then [] :: splitLines rest
+    else
+      match splitLines rest with
+      | l :: ls => (c :: l) :: ls
+      | [] => [[c]]
+
+/-- `needs_explicit_indent`: the first non-blank content line starts with a space. -/
+def needsExplicitIndent (decoded : List Char) : Bool :=
+  match (splitLines decoded).find? (fun l => !l.isEmpty) with
+  | some l => l.head? == some ' '
+  | none => false
+
+/-- The decision of `stream_yaml_value`'s block-scalar arm for a decoded value written with the
+indent string of width `indentLen` and step `indentSpaces`: `none` = fall back to smart quoting;
+`some none` = block style without an indentation indicator; `some (some d)` = block style with the
+explicit indicator `d`.  The indicator is needed when the first NON-BLANK content line starts with
+a space (auto-detection would swallow it). -/
+def blockScalarDecision (indentSpaces indentLen : Nat) (decoded : List Char) : Option (Option Nat) :=
+  if indentSpaces = 0 || indentLen = 0 then none
+  else
+    let lines := splitLines decoded
+    let hasTrailingSpace := lines.any (fun l => l.getLast? = some ' ')
+    let hasAstral := decoded.any (fun c => c.toNat > 0xFFFF)
+    let explicit : Option (Option Nat) :=
+      if needsExplicitIndent decoded then (if 1 ≤ indentSpaces && indentSpaces ≤ 9 then some (some indentSpaces) else none)
+      else some none
+    match explicit with
+    | some e => if !decoded.isEmpty && !hasTrailingSpace && !hasAstral then some e else none
+    | none => none
+
+/-- Content lines of a literal scalar as `stream_yaml_block_scalar` writes them: the value less one
+final line break, split into lines. -/
+def literalContentLines (decoded : List Char) : List (List Char) :=
+  splitLines (match decoded.reverse with | '\n' :: r => r.reverse | _ => decoded)
+
+/-- `stream_yaml_block_scalar`, literal style: header and the content lines, each non-empty line
+behind `indentLen` spaces; the caller supplies the line break that follows. -/
+def streamBlockLiteral (indentLen : Nat) (explicit : Option Nat) (decoded : List Char) : List Char :=
+  '|' :: ((match explicit with | some d => (toString d).toList | none => []) ++ chompingIndicator decoded ++
+    (literalContentLines decoded).flatMap (fun l =>
+      '\n' :: (if l.isEmpty then [] else List.replicate indentLen ' ' ++ l)))
+
+/-- The physical lines `stream_yaml_block_scalar` writes after the header (literal style). -/
+def literalBodyLines (indentLen : Nat) (decoded : List Char) : List (List Char) :=
+  (literalContentLines decoded).map fun l => if l.isEmpty then [] else List.replicate indentLen ' ' ++ l
+
+/-- Header of the folded form (the body, `widen_folded_breaks`, is not modelled). -/
+def streamBlockFoldedHeader (explicit : Option Nat) (decoded : List Char) : List Char :=
+  '>' :: ((match explicit with | some d => (toString d).toList | none => []) ++ chompingIndicator decoded)
 
 end SV.Yaml.Emit
